@@ -123,6 +123,11 @@ def run_case(contract, inputs, instance=""):
             res["trace"] = traceback.format_exc()[-1500:]
             return res
         allowed = None
+        if contract.options.get("raise_post_state") and args_ns:
+            # exceptional postcondition: evaluated on the state the exception leaves behind
+            a_exc = NS(args_ns(kwargs))
+            a_exc.__dict__["old"] = a
+            a = a_exc
         for k, cond in contract.raises.items():
             if k == tname or k in [c.__name__ for c in type(e).__mro__]:
                 try:
@@ -171,6 +176,15 @@ def main():
     path = sys.argv[1]
     with open(path) as f:
         rp = json.load(f)
+    if rp.get("bounded") and isinstance(rp.get("case"), dict) and rp["case"].get("replay_fn"):
+        # a recorded case of a bounded check: re-run it on the current tree with the check's own replay function
+        try:
+            modname, fname = rp["case"]["replay_fn"].split(":")
+            res = getattr(importlib.import_module(modname), fname)(rp["case"])
+        except Exception as e:
+            res = {"verdict": "error", "error": f"{type(e).__name__}: {e}", "trace": traceback.format_exc()[-2000:]}
+        print("REPLAY-RESULT " + json.dumps(res, default=str))
+        return 0
     try:
         c = find_contract(rp["contract_module"], rp["target"], rp.get("label"))
         res = run_case(c, rp["inputs"], rp.get("instance", ""))
